@@ -100,10 +100,60 @@ def stopped_world_scripts(rng, tier):
     return out
 
 
+def lazy_backend_scripts(rng, tier):
+    """implementation only: the backend collects the server's outgoing messages a frame late, and a client disconnects while
+    messages for the others are still queued in RepliconServer: nothing addressed to the remaining clients may be lost"""
+    out = []
+    for i in range(30 if tier == "quick" else 1000):
+        ncl = rng.choice([2, 3])
+        lines = ["cfg policy=%s auth=none track=%d nclients=%d timeout=10000" % (rng.choice(["all", "black"]), rng.randrange(2), ncl), "start", "sframe 0 10"]
+        for c in range(ncl):
+            lines.append("connect %d 1200" % c)
+        n = rng.randrange(2, 5)
+        for e in range(1, n + 1):
+            lines.append("sop spawn %d 1 0=%d 1=%d" % (e, rng.randrange(50), rng.randrange(50)))
+        lines.append("sframe 1 16")
+        for c in range(ncl):
+            lines += ["deliver %d s2c 0 all" % c, "cframe %d" % c, "deliver %d c2s 0 all" % c]
+        live = set(range(ncl))
+        nxt = n + 1
+        for _ in range(rng.randrange(2, 5)):
+            for _ in range(rng.randrange(1, 4)):
+                k = rng.random()
+                e = rng.randrange(1, n + 1)
+                if k < 0.3:
+                    lines.append("sop insert %d 2=%d" % (e, rng.randrange(50)))
+                elif k < 0.5:
+                    lines.append("sop remove %d 2" % e)
+                elif k < 0.8:
+                    lines.append("sop mutate %d %d=%d" % (e, rng.randrange(2), rng.randrange(50, 99)))
+                else:
+                    lines.append("sop spawn %d 1 0=%d" % (nxt, rng.randrange(50)))
+                    nxt += 1
+            lazy = rng.random() < 0.7
+            lines.append("sframe 1 16" + (" nodrain" if lazy else ""))
+            if lazy and len(live) > 1 and rng.random() < 0.6:
+                c = rng.choice(sorted(live))
+                live.discard(c)
+                lines += ["disconnect %d" % c, "cframe %d" % c]
+            if lazy:
+                lines.append("sframe %d 16" % rng.randrange(2))
+            for c in sorted(live):
+                if rng.random() < 0.8:
+                    lines += ["deliver %d s2c 0 all" % c, "deliver %d s2c 1 all" % c, "cframe %d" % c, "deliver %d c2s 0 all" % c]
+        meta = dict(connected=sorted(live), events=False)
+        sf = len(lines)
+        lines += gen_scripts.settle_lines(meta)
+        out.append(("lazy-backend-%d" % i, lines, sf))
+    return out
+
+
 def run(tier, seed, replay):
-    kws = [dict(sessions=True), dict(sessions=True, events=True), dict(sessions=True, nclients=3, track=True), dict(sessions=True, auth="proto", nclients=2, events=True)]
+    kws = [dict(sessions=True), dict(sessions=True, events=True), dict(sessions=True, nclients=3, track=True), dict(sessions=True, auth="proto", nclients=2, events=True),
+           dict(sessions=True, events=True, quick_reconnect=0.5, weights=dict(session=0.8)), dict(sessions=True, quick_reconnect=0.5, nclients=2, weights=dict(session=0.8))]
     return sim_check("C09", tier, seed, kws, n_quick=120, n_thorough=12000, oracle_props={"C09", "C01", "C02", "C03"},
                      custom_scripts=lambda rng, tier: injected(rng, tier) + stopped_world_scripts(rng, tier),
+                     impl_only_scripts=lazy_backend_scripts, impl_only_label="a backend that collects outgoing messages a frame late while another client disconnects",
                      rule_extra=", plus crash-point enumeration: a disconnect/reconnect or a server stop/start injected at every frame boundary of base scenarios, reconnect after one frame",
                      extra_assumptions=["a reconnect / restart happens after at least one frame of the side concerned (the property's own premise): a session that ends and restarts between two frames "
                                         "is invisible to client_just_disconnected / server_just_stopped (witnesses C09_witness_* in Properties/C09.v)",
